@@ -48,7 +48,8 @@ def wire_rules(ctx, R, verbs=True):
         raise AnalysisError("W2", "formatter loop shape not recognised")
     var = loops[0].target.id
     ctx.rule("W7", "the formatter iterates the caller's argument list itself and emits exactly one element per argument")
-    fparam = fmt.params[1] if len(fmt.params) > 1 else None
+    own_f = fmt.params if "staticmethod" in fmt.decorators else fmt.params[1:]
+    fparam = own_f[0] if own_f else None
     if isinstance(loops[0].iter, ast.Name) and loops[0].iter.id == fparam and not any(
             isinstance(a, (ast.Assign, ast.AugAssign)) and fparam in {norm(t) for t in (a.targets if isinstance(a, ast.Assign) else [a.target])}
             for a in walk_no_nested(fmt.node)):
@@ -65,6 +66,20 @@ def wire_rules(ctx, R, verbs=True):
         elif isinstance(st, ast.Expr) and isinstance(st.value, ast.Call) and isinstance(st.value.func, ast.Attribute) \
                 and st.value.func.attr == "append" and st.value.args:
             emits.append((st, st.value.args[0]))
+    # an element emitted through a local that each branch sets (`item = <form>` ... `ret.append(item)`): one emission per definition,
+    # judged where the definition stands
+    expanded = []
+    sinks = []
+    for st, el in emits:
+        if isinstance(el, ast.Name) and el.id != var:
+            defs = [d for d in walk_no_nested(loops[0]) if isinstance(d, ast.Assign) and len(d.targets) == 1 and isinstance(d.targets[0], ast.Name)
+                    and d.targets[0].id == el.id]
+            if defs:
+                expanded.extend((d, d.value) for d in defs)
+                sinks.append(st)
+                continue
+        expanded.append((st, el))
+    emits = expanded
     if len(emits) < 3:
         raise AnalysisError("W2", "formatter: fewer than 3 emission sites recognised")
 
@@ -126,6 +141,12 @@ def wire_rules(ctx, R, verbs=True):
         if kind == "quoted":
             nq += 1
             ifunc, ivar = where.get(id(inner), (fmt, var))
+            if ifunc is fmt and isinstance(inner, ast.Name) and inner.id != var:
+                # the escaped value sits in a local of its own (`escaped = a.replace(...)`; `b'"' + escaped + b'"'`)
+                from .c06 import _local_def
+                d_ = _local_def(st, inner.id)
+                if d_ is not None:
+                    inner = d_
             exprs = [inner] + (reaching_value(st) if ifunc is fmt and isinstance(inner, ast.Name) and inner.id == var else [])
             esc = escaper_order(ctx, ifunc, exprs, ivar)
             if esc is True:
@@ -207,7 +228,7 @@ def wire_rules(ctx, R, verbs=True):
     ctx.need("W2", "quoting branches", nq, 1)
     # exactly one emission per iteration
     head = [n for n in cfg.nodes_for(loops[0]) if n.kind == "loop"][0]
-    enodes = [x for st, _ in emits for x in cfg.nodes_for(st)]
+    enodes = [x for st in sinks for x in cfg.nodes_for(st)] if sinks else [x for st, _ in emits for x in cfg.nodes_for(st)]
     body_entry = [m for m, _ in head.succ if m.kind == "fact" and m.info == "for-next"]
     skip = head in cfg.reach(body_entry, avoid=enodes, exc=False)
     twice = any(any(e2 in cfg.reach([m for m, _ in e1.succ], avoid=[head], exc=False) for e2 in enodes) for e1 in enodes)
@@ -220,7 +241,8 @@ def wire_rules(ctx, R, verbs=True):
         ctx.holds("W7", "every iteration emits exactly one element (%d emission sites)" % len(emits))
     # the result list is returned unmodified
     rets = [r for r in walk_no_nested(fmt.node) if isinstance(r, ast.Return) and r.value is not None]
-    acc = {norm(st.target) for st, _ in emits if isinstance(st, ast.AugAssign)} | {norm(st.value.func.value) for st, _ in emits if isinstance(st, ast.Expr)}
+    acc = {norm(st.target) for st, _ in emits if isinstance(st, ast.AugAssign)} | {norm(st.value.func.value) for st, _ in emits if isinstance(st, ast.Expr)} \
+        | {norm(st.value.func.value) for st in sinks if isinstance(st, ast.Expr)} | {norm(st.target) for st in sinks if isinstance(st, ast.AugAssign)}
     if rets and all(isinstance(r.value, ast.Name) and r.value.id in acc for r in rets):
         ctx.holds("W7", "the accumulated list is returned as is")
     else:
@@ -299,6 +321,8 @@ def wire_rules(ctx, R, verbs=True):
                         ctx.holds("W5", "%s %s arg %s: %s" % (f.qualname, verb, norm(el)[:40], k))
         # raw channels
         ex = bound_arg(c, snd, "extralines")
+        if isinstance(ex, ast.Constant) and ex.value is None:
+            ex = None  # the default, passed explicitly
         if ex is not None:
             vals = [ex]
             if isinstance(ex, ast.Name):
@@ -420,6 +444,11 @@ def regex_source(ctx, f, e):
     v = const_value(ctx.program, f, e)
     if isinstance(v, (bytes, str)):
         return v
+    if isinstance(e, ast.Call) and call_name(e) == "compile" and e.args:
+        v = const_value(ctx.program, f, e.args[0])
+        if not isinstance(v, (bytes, str)) and isinstance(e.args[0], ast.Constant):
+            v = e.args[0].value
+        return v if isinstance(v, (bytes, str)) else None
     if isinstance(e, ast.Name):
         for m in [f.module] + list(ctx.program.modules.values()):
             d = m.assigns.get(e.id)
